@@ -4,7 +4,7 @@
    properties that own the models (each is re-stated here and closed by the proof of the owning file).  The float
    geometry code between these cores is searched by the API fuzzer, not proved (DESIGN.md, C01 partial). *)
 From Coq Require Import ZArith List.
-From TS Require Import Base.F32 Model.IntRect Model.Hairline Model.Sampler Model.Dash
+From TS Require Import Base.F32 Model.IntRect Model.Hairline Model.Sampler Model.Dash Model.Tiler Proofs.TilerProofs
   Proofs.IntRectProofs Proofs.HairlineProofs Proofs.SamplerProofs Proofs.DashProofs Proofs.DashTermination.
 Import ListNotations.
 Local Open Scope Z_scope.
@@ -34,6 +34,19 @@ Proof. exact hair_blits_in_clip. Qed.
 Theorem C01_gather_ix_in_bounds :
   forall x y w h, 1 <= w <= 16384 -> 1 <= h <= 16384 -> 0 <= gather_ix x y w h < w * h.
 Proof. exact gather_ix_in_bounds. Qed.
+
+(* tiling: a target larger than 8191 pixels is split into tiles each at most 8191 x 8191 and inside the target, and every
+   pixel of the target lies in exactly one of them (so every scan conversion stays inside the fixed-point range and no
+   pixel is drawn twice) *)
+Theorem C01_tiles_bounded :
+  forall w h t, 1 <= w -> 1 <= h -> In t (tiles w h) ->
+  let '(tx, ty, tw, th) := t in
+  0 <= tx /\ 0 <= ty /\ 1 <= tw <= 8191 /\ 1 <= th <= 8191 /\ tx + tw <= w /\ ty + th <= h.
+Proof. exact tiles_bounded. Qed.
+Theorem C01_tiles_partition :
+  forall w h x y, 1 <= w -> 1 <= h -> 0 <= x < w -> 0 <= y < h ->
+  exists l1 t l2, tiles w h = l1 ++ t :: l2 /\ inside t x y /\ (forall t', In t' (l1 ++ l2) -> ~ inside t' x y).
+Proof. exact tiles_partition. Qed.
 
 (* dashing: the dash loop ends for every pattern, phase and contour length (no hang): any fuel above
    n * (L / sum + 4) suffices, and the implementation's loop is this loop *)
